@@ -345,7 +345,9 @@ def classify_fatal(ctx, case, rs, exp, rend, obs, d, mon, keep):
     if neutral['text'] == rend['text']:
         return d
     a, b = rend['text'].split('\n'), neutral['text'].split('\n')
-    if len(a) != len(b) or sum(1 for x, y in zip(a, b) if x != y) != 1:
+    # the two texts may differ only in quote characters of the trigger (comment quote -> *, array string ' -> ")
+    if len(a) != len(b) or any(len(x) != len(y) or any(cx != cy and cx not in '\'"' for cx, cy in zip(x, y))
+                               for x, y in zip(a, b)):
         return d
     obs2 = observe(ctx, neutral['text'])
     keep.append(obs2.pop('_keep', None))
